@@ -299,7 +299,47 @@ def _slice(t, lo, w):
                 rest = [x for x in t[2:] if x is not cs[0]]
                 full = nary("mul", t[1], rest + [const(t[1], c >> lo)])
                 return slice_(full, 0, w)
+    if lo > 0 and op in ("add", "sub") and lo + w < t[1]:
+        # bits below lo+w of a sum depend only on the operands' bits below lo+w: narrow the adder, so that
+        # the same arithmetic carried out in a wider type has the same normal form
+        k = lo + w
+        if op == "add":
+            inner = nary("add", k, [slice_(x, 0, k) for x in t[2:]])
+        else:
+            inner = sub(slice_(t[2], 0, k), slice_(t[3], 0, k))
+        return slice_(inner, lo, w)
+    if lo == 0 and op == "sdiv" and t[3][0] == "const" and 0 < t[3][2] < (1 << (t[1] - 1)):
+        # signed division of a value that is a sign extension from k bits gives the sign extension of the
+        # k-bit quotient (positive divisor, no MIN / -1 case): carry it out in the narrowest such width
+        k = max(signed_width(t[2]), t[3][2].bit_length() + 1, w)
+        if k < t[1]:
+            inner = mk("sdiv", k, slice_(t[2], 0, k), const(k, t[3][2]))
+            return slice_(inner, 0, w) if w < k else inner
     return mk("slice", w, t, lo)
+
+
+def signed_width(t):
+    """smallest k such that t is the sign extension of its low k bits (syntactic, sound upper bound)"""
+    W = t[1]
+    op = t[0]
+    if op == "const":
+        v = _signed(t[2], W)
+        return min(W, (v if v >= 0 else ~v).bit_length() + 1)
+    if op == "concat" and len(t) >= 4:
+        last = t[-1]
+        body = concat(list(t[2:-1]))
+        if last[0] == "rep" and last[2] is msb(body):
+            return min(W, signed_width(body)) if body[1] <= W else W
+        if is_zero(last):
+            return min(W, body[1] + 1)
+        if last[1] == 1 and last is msb(body):
+            return body[1]
+    if op == "add":
+        ks = [signed_width(x) for x in t[2:]]
+        return min(W, max(ks) + (len(ks) - 1).bit_length())
+    if op == "sub":
+        return min(W, max(signed_width(t[2]), signed_width(t[3])) + 1)
+    return W
 
 
 def rep(w, c):
@@ -487,6 +527,30 @@ def nary(op, w, xs):
         if nn:
             r = nary("xor", w, stripped)
             return not_(r) if nn % 2 else r
+    if op == "add" and len(rest) >= 2 and w > 1:
+        # (x & y) + ((x ^ y) >> 1)  ==  bits [1, w] of the (w+1)-bit sum x + y   (carry-save identity:
+        # x + y = 2*(x & y) + (x ^ y); Hacker's Delight 2-5).  With an arithmetic shift it is the same
+        # identity on the sign-extended operands.
+        for ai, x in enumerate(rest):
+            if x[0] != "and" or len(x) != 4:
+                continue
+            p, q = x[2], x[3]
+            hx = nary("xor", w - 1, [slice_(p, 1, w - 1), slice_(q, 1, w - 1)])
+            cand_l = concat([hx, const(1, 0)])
+            cand_a = concat([hx, nary("xor", 1, [msb(p), msb(q)])])
+            for bi, y in enumerate(rest):
+                if bi == ai:
+                    continue
+                if y is cand_l:
+                    avg = slice_(nary("add", w + 1, [zext(p, w + 1), zext(q, w + 1)]), 1, w)
+                elif y is cand_a:
+                    avg = slice_(nary("add", w + 1, [sext(p, w + 1), sext(q, w + 1)]), 1, w)
+                else:
+                    continue
+                others = [z for k, z in enumerate(rest) if k not in (ai, bi)]
+                if not others:
+                    return avg
+                return nary("add", w, others + [avg])
     if op == "add" and len(rest) >= 2 and any(x[0] in ("popsum", "rep") for x in rest):
         lin = [_to_linear(x) for x in rest]
         if all(l is not None for l in lin):
@@ -1142,6 +1206,13 @@ def icmp(pred, a, b):
                 return not_(a) if c else a
     elif a[0] == "const":
         return icmp(SWAP[pred], b, a)
+    if pred in ("eq", "ne") and b[0] == "const" and b[2] == 1 and a[0] == "popsum" and a[2] == 0 and w > 1:
+        its = popsum_items(a)
+        if its and all(m == 1 for _b, m in its):
+            # popcount == 1  <=>  some bit set  and  popcount < 2
+            r = nary("and", 1, [icmp("ne", concat([bt for bt, _m in its]), const(len(its), 0)),
+                                icmp("ult", a, const(w, 2))])
+            return r if pred == "eq" else not_(r)
     if pred in ("eq", "ne") and b[0] == "const" and a[0] == "concat":
         # (zext x) == c  with c fitting -> x == c
         hi = a[-1]
